@@ -507,3 +507,135 @@ func ruleSCOPEMAP(c *Ctx) {
 		c.Bad(rule, key, f.Pos(), "the existence probes of pushName consult different maps: the free #N suffix is searched in one scope and claimed in another, so an alias inside a nested group can overwrite name#N of the enclosing rule")
 	}
 }
+
+// PAIR(seen-set): the once-only idiom `if !seen[k] { first-time work }` is complete only if the
+// guarded branch records k (seen[k] = true); otherwise the "first-time work" (a variable
+// declaration emitted into generated code) is repeated for every occurrence of k.
+func ruleSEENSET(c *Ctx, pkgs ...string) {
+	const rule = "PAIR(seen-set)"
+	n := 0
+	for _, rel := range pkgs {
+		for _, f := range c.SrcFuncs(rel) {
+			ord := map[string]int{}
+			for _, b := range f.Blocks {
+				if len(b.Instrs) == 0 {
+					continue
+				}
+				ifi, ok := b.Instrs[len(b.Instrs)-1].(*ssa.If)
+				if !ok {
+					continue
+				}
+				cond, pol := ifi.Cond, true
+				for {
+					if u, isU := cond.(*ssa.UnOp); isU && u.Op == token.NOT {
+						cond, pol = u.X, !pol
+						continue
+					}
+					break
+				}
+				lk, ok := cond.(*ssa.Lookup)
+				if !ok || lk.CommaOk {
+					continue
+				}
+				mt, ok := lk.X.Type().Underlying().(*types.Map)
+				if !ok || !types.Identical(mt.Elem().Underlying(), types.Typ[types.Bool]) {
+					continue
+				}
+				// the branch taken when the key is NOT in the set
+				miss := b.Succs[1]
+				if !pol {
+					miss = b.Succs[0]
+				}
+				if len(miss.Preds) != 1 {
+					continue
+				}
+				// is this map ever updated with `true` in this function (a seen-set, not a read-only set)?
+				isSeenSet := false
+				recorded := false
+				loopsF := naturalLoops(f)
+				guardLoop := innermostLoop(loopsF, b)
+				for _, x := range f.Blocks {
+					for _, ins := range x.Instrs {
+						mu, ok := ins.(*ssa.MapUpdate)
+						if !ok || vpath(mu.Map) != vpath(lk.X) || vpath(mu.Value) != "true" {
+							continue
+						}
+						// a set that is filled by an earlier loop and only consulted here is a plain
+						// membership filter, not the once-only idiom
+						if guardLoop != nil && !guardLoop.Body[x] {
+							continue
+						}
+						isSeenSet = true
+						if vpath(mu.Key) == vpath(lk.Index) && (x == miss || miss.Dominates(x)) {
+							recorded = true
+						}
+					}
+				}
+				// sets filled elsewhere (read-only here) are out of scope; but a map literal created in
+				// this function that is only ever read is exactly the broken idiom
+				if !isSeenSet {
+					continue
+				}
+				n++
+				key := ordKey(ord, ssaFuncKey(f)+":"+normalizePhi(vpath(lk.X))+"["+normalizePhi(vpath(lk.Index))+"]")
+				if recorded {
+					c.Ok(rule, key, lk.Pos(), "the first-time branch records the key in the set")
+				} else {
+					c.Bad(rule, key, lk.Pos(), "the branch guarded by !%s[%s] never records that key: the once-only work is repeated for every occurrence (a second `nn, _ := ...` declaration in generated code does not compile)", normalizePhi(vpath(lk.X)), normalizePhi(vpath(lk.Index)))
+				}
+			}
+		}
+	}
+	if n < 3 {
+		c.add(rule, "count:", token.NoPos, CountDropped, true, "only %d once-only guards found", n)
+	}
+}
+
+// GUARD(inline-unique): when every lexer rule has a distinct token and no code, the generated
+// lexer switches directly on token ids (`case token.X:`). compiler.canInlineRules must refuse
+// that shortcut when two rules yield the same token (duplicate case labels do not compile): it
+// keeps a set of the tokens seen and returns false under a membership test on it.
+func ruleINLINEUNIQUE(c *Ctx) {
+	const rule = "GUARD(inline-unique)"
+	f := c.SSAFunc("compiler", "(*lexerCompiler).canInlineRules")
+	key := "compiler.lexerCompiler.canInlineRules:duplicates"
+	if f == nil {
+		c.Lost(rule, key, "function not found")
+		return
+	}
+	member, record := false, false
+	for _, b := range f.Blocks {
+		for _, ins := range b.Instrs {
+			call, ok := ins.(*ssa.Call)
+			if !ok {
+				continue
+			}
+			g := call.Call.StaticCallee()
+			if g == nil || g.Signature.Recv() == nil || !strings.HasSuffix(g.Signature.Recv().Type().String(), "container.BitSet") {
+				continue
+			}
+			switch g.Name() {
+			case "Get":
+				// a `return false` must be reachable on the true outcome
+				for _, r := range *call.Referrers() {
+					if _, ok := r.(*ssa.If); ok {
+						member = true
+					}
+					if _, ok := r.(*ssa.Phi); ok {
+						member = true
+					}
+					if bo, ok := r.(*ssa.BinOp); ok && bo.Op == token.LOR {
+						member = true
+					}
+				}
+			case "Set":
+				record = true
+			}
+		}
+	}
+	if member && record {
+		c.Ok(rule, key, f.Pos(), "canInlineRules keeps a set of the tokens seen and tests membership before accepting a rule")
+	} else {
+		c.Bad(rule, key, f.Pos(), "canInlineRules does not track which tokens already have a rule (membership test: %v, recording: %v): two rules of one token are inlined into duplicate `case` labels", member, record)
+	}
+}
